@@ -71,6 +71,13 @@ def variants(client):
         add("info-es", "info", [(b":status", b"103")], es=True)
         add("trailers", "trailers", [(b"x-t", b"1")], es=True)
         add("trailers-noes", "trailers", [(b"x-t", b"1")])
+    # connection-specific fields written with padding, sent while the application has outbound validation switched off: the
+    # documented normalisation removes them, and what the peer decodes is the normalised list
+    CONN = [(b" Connection ", b"close"), (b"Keep-Alive\t", b"5"), (b"x-after", b"1")]
+    if client:
+        V["req-conn-novalidate"] = ("request", list(REQ) + CONN + [fresh("req-conn-novalidate")], False, {"_novalidate": True})
+    else:
+        V["resp-conn-novalidate"] = ("response", list(RESP) + CONN + [fresh("resp-conn-novalidate")], False, {"_novalidate": True})
     # trailers with no field at all: the block still owes the peer the table-size update that a HEADER_TABLE_SIZE change calls for
     V["trailers-empty"] = ("trailers", [], True, {})
     return V
@@ -254,7 +261,14 @@ class Spec:
             kw = dict(kw)
             if kw.get("priority_depends_on") == "SELF":
                 kw["priority_depends_on"] = sid
-            o = h.api("send_headers", sid, list(hdrs), end_stream=es, **kw)
+            noval = kw.pop("_novalidate", False)
+            if noval:
+                h.conn.config.validate_outbound_headers = False
+            try:
+                o = h.api("send_headers", sid, list(hdrs), end_stream=es, **kw)
+            finally:
+                if noval:
+                    h.conn.config.validate_outbound_headers = True
             expect_list = (btype, hdrs)
             out = "h-%s-%s" % (parts[2], o.kind)
         # ---- oracle
